@@ -159,6 +159,9 @@ type ClpParams struct {
 	Cancel     uint64
 	Registry   [][2]int64 // denom id, permission bits
 	Whitelist  []int64
+	RewardsLock   uint64
+	RewardsWallet bool
+	EpochID       string
 }
 type ClpState struct {
 	Params   ClpParams
@@ -275,6 +278,9 @@ func (e *Env) Snapshot() ClpState {
 	}
 	s.Params.Lock = rp.LiquidityRemovalLockPeriod
 	s.Params.Cancel = rp.LiquidityRemovalCancelPeriod
+	s.Params.RewardsLock = rp.RewardsLockPeriod
+	s.Params.RewardsWallet = rp.RewardsDistribute
+	s.Params.EpochID = rp.RewardsEpochIdentifier
 	for _, en := range e.App.TokenRegistryKeeper.GetRegistry(ctx).Entries {
 		if en == nil {
 			continue
@@ -432,5 +438,6 @@ func (e *Enc) Clp(s ClpState) *Enc {
 	for _, w := range s.Params.Whitelist {
 		e.I(w)
 	}
+	e.U(s.Params.RewardsLock).B(s.Params.RewardsWallet)
 	return e
 }
